@@ -1,5 +1,6 @@
 import Pymeeus.Refine.FindersJde
 import Pymeeus.Refine.FinderAngles
+import Pymeeus.Refine.FinderNodes
 /-
 C13 — Planetary event finders return real events, in order, none skipped.
 
@@ -505,6 +506,18 @@ theorem mean_anomaly_in_first_turn : ∀ r : Finder, ∀ k : ℤ, 0 ≤ finder_m
       mul_lt_mul_of_pos_right b (by positivity)
     linarith
 
+/-- passage_nodes, "the result lies within one period of the query" - the two-body half: for an elliptic orbit
+    (0 ≤ e < 1, a > 0) `passage_nodes_elliptic` (model of templates/Kepler.lean, C11) returns a time strictly less
+    than half an orbital period (180/n days, n = 0.9856076686 / a^1.5 degrees per day) from the perihelion time it
+    is given, for either node and any argument of perihelion.  With the perihelion within half a period (+ bracket)
+    of the query this is the clause; that the perihelion chosen IS that near is only true up to the drift of the
+    linear count (known finding C13-mercury-nodes-beyond-one-period), and the VSOP87 stage in between is not
+    modelled. -/
+theorem node_passage_within_half_period_of_perihelion : ∀ (e a ω T : ℝ) (asc : Bool), 0 ≤ e → e < 1 → 0 < a →
+    ∃ t r, GenR.Kepler.passage_nodes_elliptic ω e a T asc = .ok (t, r) ∧
+      |t - T| < 180 / (0.9856076686 / (a * Real.sqrt a)) :=
+  fun _ _ ω T asc h0 h1 ha => Refine.FinderNodes.node_within_half_period h0 h1 ha ω T asc
+
 /-! ### The hypotheses are satisfiable -/
 
 example : Mercury_inferior_conjunction ∈ generatedFinders := by simp [generatedFinders]
@@ -554,5 +567,11 @@ example : ∀ r ∈ generatedPA, pa_jde r 0 true < pa_jde r 1 true := by
     rw [e]; push_cast at this; linarith
   exact (pa_results_ordered_partial r hr true 0 1 _ _ (by simpa using le_trans zero_le_one hk) (by simpa using hk)
     (by norm_num) (by simpa using d0) (by simpa using d0)).1
+
+/-- Mercury's orbit (e = 0.2056, a = 0.3871) satisfies the hypotheses of `node_passage_within_half_period_of_perihelion` -/
+example : ∃ t r, GenR.Kepler.passage_nodes_elliptic 29.1 0.2056 0.3871 2451590.257 true = .ok (t, r) := by
+  obtain ⟨t, r, h, _⟩ := node_passage_within_half_period_of_perihelion 0.2056 0.3871 29.1 2451590.257 true
+    (by norm_num) (by norm_num) (by norm_num)
+  exact ⟨t, r, h⟩
 
 end Pymeeus.C13
